@@ -577,10 +577,13 @@ class simplify_chained_calls(FuncADLNodeTransformer):
             # A negative literal index is parsed as -(n)
             s = ast.Constant(value=-s.operand.value)
         # Only a constant index or key can be looked up here
+        # (a literal with a starred element has no fixed positions)
         if isinstance(s, ast.Constant) and type(s.value) in (int, bool):
-            if type(v) is ast.Tuple:
+            if type(v) in (ast.Tuple, ast.List) and any(isinstance(x, ast.Starred) for x in v.elts):
+                pass
+            elif type(v) is ast.Tuple:
                 return self.visit_Subscript_Tuple(v, s)
-            if type(v) is ast.List:
+            elif type(v) is ast.List:
                 return self.visit_Subscript_List(v, s)
         if isinstance(s, ast.Constant) and type(s.value) in (int, bool, str):
             if type(v) is ast.Dict:
